@@ -8,7 +8,10 @@ let parse_in (ins : string list) : listener * tunnel * inner list =
   match ins with
   | l :: t :: rest ->
       let l' = (match l with "Lp" -> LPlain | "Ls" -> LShaped | "Lt" -> LTls | "Lx" -> LShapedTls | _ -> raise (Bad l)) in
-      let t' = (match t with "Tt" -> TunTls | "Tp" -> TunPlain | "Tn" -> NoTunnel | _ -> raise (Bad t)) in
+      (* an optional third character is the client's timing of the first tunnel bytes relative to the
+         CONNECT response (b pipelined, c split): not a model input, the proxy must behave the same *)
+      let t' = (match t with "Tt" | "Ttb" | "Ttc" -> TunTls | "Tp" | "Tpb" | "Tpc" -> TunPlain
+                           | "Tn" -> NoTunnel | _ -> raise (Bad t)) in
       let req s =
         let f = (match s.[0] with 'o' -> FOrigin | 'a' -> FAbsHttp | 's' -> FAbsHttps | 'n' -> FNoHost
                                   | _ -> raise (Bad s)) in
